@@ -376,6 +376,32 @@ func c17Sequence(r *ev.Run) {
 		r.Case(fmt.Sprintf("seq/len%d/%v", min(len(seq), 5), strings.Trim(fmt.Sprint(seq[:min(len(seq), 3)]), "[]")))
 	}
 	r.Count("sequences", int64(len(seqs)))
+	// (1a) a patient child: the real new process asks for the admin stop and the drain, then waits (minutes by default) before it
+	// asks for the termination on the same connection. A pause between two requests is not a reason to forget the child.
+	pause := 12 * time.Second
+	if r.Tier == "thorough" {
+		pause = 75 * time.Second
+	}
+	if c, err := dial(); err != nil {
+		r.Violation("C17:later-child-cannot-connect", "a new child could not connect to the hand-over socket: "+err.Error(), nil)
+		return
+	} else {
+		inst.take()
+		seq := []int{mtAdminReq, mtLocalConfReq, mtDrainReq, mtTerminateReq}
+		var replies []int
+		for i, t := range seq {
+			if i == len(seq)-1 {
+				r.Checkpoint(map[string]interface{}{"phase": "patient child", "pause": pause.String()})
+				time.Sleep(pause)
+			}
+			replies = append(replies, request(c, t))
+		}
+		time.Sleep(time.Millisecond)
+		judge(seq, replies, inst.take(), fmt.Sprintf("lock-step, with a pause of %s before the last request", pause))
+		c.Close()
+		r.Count("sequences_with_a_pause", 1)
+		r.Case("seq/paused-before-terminate")
+	}
 	// (1b) an impatient child: the next request is sent while the old process is still busy with the
 	// previous step (steps take 30 ms here), without waiting for its reply. Steps and replies must still come in the requested order.
 	atomic.StoreInt64(&inst.stepDelay, int64(30*time.Millisecond))
